@@ -1,12 +1,50 @@
 (** C18 — animations keep their transparency in lossy and mixed-codec modes. *)
 From Coq Require Import List ZArith.
 From Webp Require Import Anim.Blend Anim.Canvas Anim.AnimDec Anim.AnimEncModel Anim.AnimEncSpec
-  Anim.AnimEncWitness.
+  Anim.AnimEncLemmas Anim.AnimEncProofs Anim.AnimEncMain Anim.AnimEncWitness.
 Import ListNotations.
 Open Scope Z_scope.
 
-(** False of the code as pinned: the lossy frame encoder of the animation path
-    returns the colour bitstream without its alpha data. *)
+(** For Lossless in {false,true} x AllowMixed in {false,true}, any Quality 0..100,
+    any Kmin/Kmax, any frames (binary or graded alpha), every outcome of the size
+    comparisons (which candidate, which codec in mixed mode): with a VP8L codec that
+    is exact up to colour under alpha 0 and a VP8+ALPH codec that is exact in size and
+    alpha, the alpha planes of what is played are the alpha planes of what was added —
+    picture by picture, with the same display times (the C08 relation on the alpha
+    channel).  Model of the code under test: [repaired]. *)
+Theorem C18_anim_alpha_preserved :
+  forall (rt_ll rt_ly : img -> img) (W H : Z) (opts : eopts) (frames : list (img * Z))
+         (oracle : nat -> orc) (simple : bool) (st0 : est) (out : output),
+    codec_lossless rt_ll -> codec_alpha_exact rt_ly ->
+    wf_canvas_dims W H -> alpha_opts opts -> frames <> [] -> Forall wf_input frames ->
+    new_encoder W H opts = Some st0 ->
+    close simple (run_frames repaired oracle st0 frames) = Some out ->
+    same_show_by alpha_only W H (eo_loop opts) out (playback rt_ll rt_ly repaired out)
+                 (inputs_of W H frames).
+Proof. exact anim_alpha_preserved. Qed.
+Print Assumptions C18_anim_alpha_preserved.
+
+(** blending never changes alpha: the alpha of a blend depends on the alphas only *)
+Theorem C18_blending_alpha_depends_on_alpha_only : forall s s' d d',
+  alpha_only s = alpha_only s' -> alpha_only d = alpha_only d' ->
+  alpha_only (blend_spec s d) = alpha_only (blend_spec s' d').
+Proof. exact alpha_blend. Qed.
+Print Assumptions C18_blending_alpha_depends_on_alpha_only.
+
+(** pixelsAreSimilar requires equal alpha *)
+Theorem C18_similar_pixels_have_equal_alpha : forall p t md,
+  pixels_similar p t md = true -> pa p = pa t.
+Proof. exact similar_pixels_have_equal_alpha. Qed.
+Print Assumptions C18_similar_pixels_have_equal_alpha.
+
+(** The hypotheses are satisfiable: the identity codec, and the session that
+    failed on the pinned code plays back with the source alpha on the repaired model. *)
+Theorem C18_example_codec : codec_lossless id_img /\ codec_alpha_exact id_img.
+Proof. exact (conj id_codec_lossless id_codec_alpha_exact). Qed.
+Print Assumptions C18_example_codec.
+
+(** False of the code as pinned ([pinned]): the lossy frame encoder of the animation
+    path returned the colour bitstream without its alpha data. *)
 Theorem C18_anim_alpha_preserved_refuted : ~ anim_alpha_preserved_statement pinned.
 Proof. exact anim_alpha_preserved_refuted. Qed.
 Print Assumptions C18_anim_alpha_preserved_refuted.
@@ -16,3 +54,18 @@ Theorem C18_lossy_frame_carries_alph_refuted :
     map pa (ipix (decoded id_img id_img pinned false r)) <> map pa (ipix (m_img r)).
 Proof. exact lossy_frame_carries_alph_refuted. Qed.
 Print Assumptions C18_lossy_frame_carries_alph_refuted.
+
+(** On the repaired wiring a lossy frame keeps its alpha plane. *)
+Theorem C18_lossy_frame_carries_alph : forall (rt_ll rt_ly : img -> img) via r,
+  codec_alpha_exact rt_ly -> m_lossy r = true -> wf_img (m_img r) ->
+  map pa (ipix (decoded rt_ll rt_ly repaired via r)) = map pa (ipix (m_img r)).
+Proof. exact lossy_frame_carries_alph. Qed.
+Print Assumptions C18_lossy_frame_carries_alph.
+
+(** Whichever codec mixed mode picks for a frame, the decoded frame has the alpha
+    of the picture that was encoded. *)
+Theorem C18_mixed_never_drops_alpha : forall (rt_ll rt_ly : img -> img) via r,
+  codec_lossless rt_ll -> codec_alpha_exact rt_ly -> wf_img (m_img r) ->
+  map pa (ipix (decoded rt_ll rt_ly repaired via r)) = map pa (ipix (m_img r)).
+Proof. exact mixed_never_drops_alpha. Qed.
+Print Assumptions C18_mixed_never_drops_alpha.
